@@ -1328,7 +1328,7 @@ fn main() {
         }
     }
     // (f) random scripts over the whole statement language
-    let n_tb = if o.thorough() { 20_000 } else { 600 };
+    let n_tb = if o.thorough() { 60_000 } else { 600 };
     let mut rng = Rng::new(o.seed ^ 0x7B11);
     let sigw = ["INT", "QUIT", "TERM", "USR1", "CHLD", "TSTP", "HUP", "2", "15", "124", "0", "EXIT"];
     for _ in 0..n_tb {
